@@ -35,21 +35,21 @@ CLAIMED = {
                   'also on recursive (re-entrant) calls, on arguments whose keys exceed a file name, and - judged by KeyTrace - on the key engine\'s catalogue of signatures, spellings, keymaps, partials, methods and functions sharing a code object.', '4 (C01), 17'),
     'C02': _cache('Clauses C02.*: the stub is evaluated exactly when the key is neither resident nor in the bound archive; '
                   'a miss stores; ghost set of keys that must stay retrievable while an archive is attached (kept across f.archive(B)); second instance on the same archive; '
-                  'injected archive read faults (no evaluation while the result is archived); recursive calls.', '4 (C02), 17'),
+                  'injected archive read faults (no evaluation while the result is archived); recursive calls; results of a few hundred KB over compressed/plain directory and file archives.', '4 (C02), 17, 21'),
     'C05': _cache('Clauses C05.*: size after a call <= max(maxsize, size before); maxsize 0/None semantics; purge empties; every spelling of maxsize; recursive (re-entrant) calls, modelled in layer I as Enter/Return with a stack of pending calls.', '4 (C05), 17'),
-    'C06': _cache('Clauses C06.*: victims are exactly those of LRU/MRU/LFU/RR computed from ghost recency/frequency; hits keep everything.', '4 (C06)'),
+    'C06': _cache('Clauses C06.*: victims are exactly those of LRU/MRU/LFU/RR computed from ghost recency/frequency; hits keep everything; also for cache keys that are false in a boolean test (0, empty string, empty tuple).', '4 (C06), 21'),
     'C07': _cache('Clauses C07.*: whatever leaves memory is in the archive with its value; archive entries never change; retrievability ghost.', '4 (C07)'),
     'C08': ('store', 'model_checking',
             'StoreP gives the exact post-state of every cache/archive operation (dict ops, direct archive writes, load/dump with and '
-            'without keys, sync, archived on/off, open, drop); TLC checks that StoreImpl (the __archive__/__swap__ mechanism) refines it '
+            'without keys, sync, archived on/off, open, drop, the bare archive property setter); TLC checks that StoreImpl (the __archive__/__swap__ mechanism) refines it '
             'exhaustively within bounds; generated behaviours are replayed on real klepto.archives.cache objects over 11 backends and '
-            'every step is judged by TLC (StoreTrace).', '4 (C08)',
+            'every step is judged by TLC (StoreTrace).', '4 (C08), 21',
             'trusted: TLC, the recorder (harness/store_checks.py); keys k1..k3 / small int values; HDF5/sqlalchemy backends absent',
             'TLA+ layer P/I refinement by TLC + trace validation of replayed TLC behaviours'),
     'C09': _key('C09.*: calls with identical bindings get one key (every keymap class, flat or not, typed or not) and the second is served from the cache.'),
     'C10': _key('C10.*: calls binding unequal values (or, typed, differently typed values) to a non-ignored parameter never share a key under an information-preserving keymap; a hit returns the own result.'),
     'C11': _key('C11.*: calls differing only in ignored arguments (name, index, *, **) share a key and are not re-evaluated; everything else still discriminates.'),
-    'C17': _key('C17.*: keys computed in three interpreter sessions (PYTHONHASHSEED 0, 1, random) are byte-identical; a writer session archives to file/dir/sqlite and reader sessions with other seeds find every call as a load.'),
+    'C17': _key('C17.*: keys computed in three interpreter sessions (PYTHONHASHSEED 0, 1, random; one makes the calls in the opposite order, one has met unkeyable arguments before) are byte-identical; a writer session archives to file/dir/sqlite and reader sessions with other seeds find every call as a load.'),
     'C13': ('fs', 'fault_enumeration',
             'C13.*: after a kill at any file-system call of an operation a fresh process reads the archive without error, sees every '
             'untouched key unchanged, every touched key with its previous or its new value, and no key that was never stored. Layer I '
@@ -72,12 +72,12 @@ CLAIMED = {
             'their file-system calls (audit hooks + open/exists wrappers in the worker launcher; SQL statements for sqlite) and released '
             'in schedule order; TLC judges every run\'s results and final view (FsTrace).', '4 (C14)',
             'trusted: TLC, harness/fs_worker.py stepping (audit events cover open/mkdir/rename/remove/rmdir/scandir), processes not threads; '
-            'two or three operations, two keys; sqlite at statement granularity; HDF5/sqlalchemy backends absent',
+            'two or three operations, two keys (entries with a history, finished processes keep their handles); sqlite at statement granularity; HDF5/sqlalchemy backends absent',
             'TLA+ layer I interleavings model-checked by TLC + TLC-generated schedules replayed on real processes (stepping controller) + trace validation'),
-    'C15': _cache('Clauses C15.*: exactly one of hit/load/miss is incremented according to the pre-state class; size/maxsize; clear semantics.', '4 (C15)'),
+    'C15': _cache('Clauses C15.*: exactly one of hit/load/miss is incremented according to the pre-state class; size/maxsize; clear semantics; calls of a sibling function decorated by the same decorator object are not part of the account (sibcall).', '4 (C15), 21'),
     'C16': _cache('Clauses C16.*: a raising call leaves every observable unchanged and re-raises the same object after one evaluation; '
-                  'safe decorators fall back to plain evaluation for unkeyable arguments.', '4 (C16)'),
-    'C18': _cache('Clauses C18.*: key() is the storage key, lookup() returns the resident value or KeyError, both are pure; with ignore/tol variants.', '4 (C18)'),
+                  'safe decorators fall back to plain evaluation for unkeyable arguments (unhashable, unprintable, unpicklable); a twin instance that never received the raising calls agrees.', '4 (C16), 20, 21'),
+    'C18': _cache('Clauses C18.*: key() is the storage key, lookup() returns the resident value or KeyError, both are pure (a twin instance that never received the queries agrees); __wrapped__ is the decorated callable; with ignore/tol variants, equal arguments of different types, decorated partials and a decorated builtin without signature.', '4 (C18), 20, 21'),
     'C03': ('dict', 'model_checking',
             'C03.*: every mapping method returns what a dict holding the same contents returns, raises KeyError exactly when a dict '
             'does, leaves the contents a dict would have, never touches an archive stored under another name, a failed operation '
@@ -110,7 +110,7 @@ CLAIMED = {
             'the catalogue; TLC emits the catalogue, every call is pushed through real caches (std/safe), keygen and the standalone '
             'decorators, and TLC judges every recorded call against all earlier calls of its trace (RoundTrace).', '4 (C12)',
             'trusted: TLC, harness/round_checks.py (tree <-> Python value mapping); floats are dyadic rationals so that a correctly '
-            'rounded round() equals exact half-to-even rounding; 19 argument shapes x two leaves; tolerances None,-1,0,1,2',
+            'rounded round() equals exact half-to-even rounding; 23 argument shapes x two leaves (floats incl. values that round to -0.0, ints, strings, None, bool, range, namedtuple, ip network, one-shot iterator, class object, an object whose iter() raises); every call in its three spellings and with containers updated in place; tolerances None,-1,0,1,2',
             'TLA+ rounding oracle on trees + transcription of the rounders, exhaustive catalogue check by TLC, catalogue replay + trace validation'),
     'C19': ('valid', 'model_checking',
             'C19.*: isvalid is True exactly when the interpreter binds the call, validate returns None / raises TypeError accordingly, '
